@@ -847,6 +847,13 @@ fn main() {
                 }
             };
             emit("rebind", "F ← +1\nG ← F\nF ← ×2\nG 5\n".into(), "ok [6]".into(), &mut kinds, &mut cases, &mut bad);
+            // regression (C14-F2, repaired by 22fc111): whether a switch branch is "known to throw" must not
+            // depend on whether it is written in place or named; a recursive or a non-throwing named branch stays rigid
+            emit("switch-flex-inline", "⨬(¯|3 4 5 ⍤\"x\" 3) 0 5\n".into(), "ok [-5]".into(), &mut kinds, &mut cases, &mut bad);
+            emit("switch-flex-named", "Fa ← 3 4 5 ⍤\"x\" 3\n⨬(¯|Fa) 0 5\n".into(), "ok [-5]".into(), &mut kinds, &mut cases, &mut bad);
+            emit("switch-flex-aliased-twice", "Fa ← 3 4 5 ⍤\"x\" 3\nFb ← Fa\nFc ← Fb\n⨬(¯|Fc) 0 5\n".into(), "ok [-5]".into(), &mut kinds, &mut cases, &mut bad);
+            emit("switch-rigid-recursive", "Fr ← |1.3 ⨬(1 2 3 ◌|Fr -1) ⊸>0\n⨬(¯|Fr) 0 5\n".into(), "compile error: Switch branch's signature |1.3 is incompatible with previous branches |1.1".into(), &mut kinds, &mut cases, &mut bad);
+            emit("switch-rigid-named", "Fa ← 3 4 5\n⨬(¯|Fa) 0 5\n".into(), "compile error: Switch branch's signature |0.3 is incompatible with previous branches |1.1".into(), &mut kinds, &mut cases, &mut bad);
             // a module's header import line must not make a private name reachable outside the module
             emit("private-header-import", "┌─╴M ~ F\n  F ↚ +1\n└─╴\nF 5\n".into(), "private".into(), &mut kinds, &mut cases, &mut bad);
             emit("private-header-import", "┌─╴M ~ P\n  P ↚ 5\n└─╴\nP\n".into(), "private".into(), &mut kinds, &mut cases, &mut bad);
